@@ -636,6 +636,16 @@ def trace_decode_path(pyir, cls, frame_code, with_last, script, base_error=None)
     timer = _Timer(effects)
     o_rt = IRCode.__dict__.get('repeat_timer')
     before_c, before_i = snapshot(cls), snapshot(inst)
+
+    def held_state():
+        if last is None:
+            return None
+        try:
+            return (sorted((k, repr(v)) for k, v in last._data.items()), repr(getattr(last, '_normalized_rlc', None)),
+                    repr(getattr(last, '_original_rlc', None)))       # repeat_count is a counter, not part of the model
+        except Exception:
+            return 'unreadable'
+    before_l = held_state()
     with Shadow(pyir) as sh:
         sh.patch(base, 'decode', stub_decode)
         sh.patch(base, '_last_code', property(get_last, set_last))
@@ -670,6 +680,8 @@ def trace_decode_path(pyir, cls, frame_code, with_last, script, base_error=None)
         path, script_after = ST.path, ST.script
     if snapshot(cls) != before_c or snapshot(inst) != before_i:
         raise Opaque('decode() changes tables or keeps state on the class/instance')
+    if held_state() != before_l:
+        raise Opaque('decode() modifies the held code object in place (fields or frame lists)')
     if base_error is None and not calls:
         raise Opaque('decode() does not call the base decoder')
     return path, (leaf, list(effects)), script_after
